@@ -1,6 +1,7 @@
 CONSTANTS
   MaxIds = 4
   MaxInt = 3
+  MaxExt = 2
   MaxLinks = 2
 INIT GenInit
 NEXT GenNext
